@@ -72,7 +72,8 @@ def diff_task(task):
     out = {"cmd": cmd, "problems": []}
     # (DAYS beyond timedelta's range aborts trash-empty at the first dated entry it meets, whoever wrote that entry:
     #  an added neighbour that carries a date can be that first one - not an effect of malformedness)
-    if a.get("exc") and not c.get("exc") and a["exc"] != "OverflowError":
+    from ..readfamily import days_out_of_range
+    if a.get("exc") and not c.get("exc") and not (a["exc"] == "OverflowError" and days_out_of_range(world)):
         out["problems"].append("traceback with malformed neighbours: %s" % a["exc"])
     if cmd in ("list", "restore"):
         if good_lines(world, a["stdout"], cmd) != good_lines(world, c["stdout"], cmd):
